@@ -10,9 +10,10 @@ program exhaustively, samples deeper programs with -simulate, and prints each pr
 sets.  drive/xsec.cpp executes them through the real CrossSection API and judges every object by an
 independent crossing-number oracle on ToPolygons(), Area(), the exact `Regularized` predicate (integer
 segment predicates), lattice-ness of the output, and operand-order independence."""
-import json, os, time
+import json, os, time, threading
 import vf, progfam
 
+LOCK = threading.Lock()
 OWNED = {'pixels', 'winding', 'area', 'regular', 'lattice', 'order', 'finite'}
 
 
@@ -129,13 +130,22 @@ def run_programs(chk, tally, behaviours, opts, tag, jobs=12, variant='seq', time
 
 
 def gen(chk, cfg, simulate=None, timeout=900, fams=None):
+    """TLC on Xsec.tla with one configuration; returns the distinct programs it printed"""
     t0 = time.time()
-    behs, r = progfam.generate(cfg, module='Xsec', simulate=simulate, timeout=timeout)
+    r = vf.tlc('Xsec', cfg, workers=4 if simulate else 2, simulate=simulate, timeout=timeout,
+               env={'JAVA_TOOL_OPTIONS': '-Xss64m -Xmx4g -XX:ParallelGCThreads=2'})
+    vf.tlc_ok(r, 'Xsec/' + cfg)
+    if r.violation:
+        raise vf.ToolError('Xsec/%s: invariant %s violated in the MODEL (specification bug)\n%s' % (cfg, r.violation, r.out[-2500:]))
+    behs = list(dict.fromkeys(r.behaviours))
+    if not behs:
+        raise vf.ToolError('no programs generated from %s\n%s' % (cfg, r.out[-2000:]))
+    with LOCK:
+        chk.coverage['states'] = chk.coverage.get('states', 0) + r.distinct
+        chk.coverage['transitions'] = chk.coverage.get('transitions', 0) + r.generated
+        if fams is not None:
+            fams[cfg.replace('Xsec_', '').replace('.cfg', '')] = len(behs)
     vf.log('[C11] TLC %s: %d programs, %d states in %.0fs' % (cfg, len(behs), r.distinct, time.time() - t0))
-    chk.coverage['states'] = chk.coverage.get('states', 0) + r.distinct
-    chk.coverage['transitions'] = chk.coverage.get('transitions', 0) + r.generated
-    if fams is not None:
-        fams[cfg.replace('Xsec_', '').replace('.cfg', '')] = len(behs)
     return behs
 
 
@@ -156,21 +166,23 @@ def main(tier):
         # EVERY contour set of <= 2 catalogue contours under both fill rules
         ('fill', 'Xsec_fill3.cfg' if quick else 'Xsec_fill4.cfg', None, 3000),
         # EVERY program of two leaves + one Boolean / transform (small family), + two steps (tiny family)
-        ('prog2', 'Xsec_prog2.cfg', None, 1800),
+        ('prog2', 'Xsec_prog2q.cfg' if quick else 'Xsec_prog2.cfg', None, 1800),
         ('prog4', 'Xsec_prog4q.cfg' if quick else 'Xsec_prog4.cfg', None, 1800),
+        # EVERY BatchBoolean of 0, 1 or 3 operands over every triple of the four micro-family leaves
+        ('batch', 'Xsec_batch.cfg', None, 1800),
         # seeded random deeper programs (3 leaves, Booleans, BatchBooleans, transforms of any earlier step)
-        ('sim', 'Xsec_sim.cfg', 30 if quick else 1200, 3000),
+        ('sim', 'Xsec_sim.cfg', 60 if quick else 2400, 3000),
         # StairSound: the staircase formula is the fill of the staircase contour (small instances) ...
         ('stairMC', 'Xsec_stairMC.cfg', None, 900),
         # ... and staircase ribbons with > 1024 edges: the BVH broad phase of boolean2.cpp
-        ('stair', 'Xsec_stair.cfg', 2 if quick else 6, 2400)]
+        ('stair', 'Xsec_stair.cfg', 4 if quick else 12, 2400)]
     if not quick:
-        plan.append(('stairL', 'Xsec_stairL.cfg', 6, 3000))
+        plan.append(('stairL', 'Xsec_stairL.cfg', 12, 3000))
     from concurrent.futures import ThreadPoolExecutor
     def one(job):
         time.sleep(0.3 * plan.index(job))      # distinct TLC metadirs
         return gen(chk, job[1], simulate=job[2], timeout=job[3], fams=fams)
-    with ThreadPoolExecutor(max_workers=4 if quick else 3) as ex:
+    with ThreadPoolExecutor(max_workers=5 if quick else 3) as ex:
         B = dict(zip([j[0] for j in plan], ex.map(one, plan)))
 
     run_programs(chk, tally, B['single'], [], 'single')
@@ -178,9 +190,10 @@ def main(tier):
     samples += [prog_text(json.loads(b)) for b in B['fill'][len(B['fill']) // 3::max(1, len(B['fill']) // 4)][:3]]
     if not quick:
         run_programs(chk, tally, B['fill'][seed % 7::7], ['--jitter=13'], 'fillJ')
-    run_programs(chk, tally, B['prog2'][seed % 2::2] if quick else B['prog2'], [], 'prog2')
+    run_programs(chk, tally, B['prog2'][seed % 3::3] if quick else B['prog2'], [], 'prog2')
     samples.append(prog_text(json.loads(B['prog2'][len(B['prog2']) // 2])))
     run_programs(chk, tally, B['prog4'], [], 'prog4')
+    run_programs(chk, tally, B['batch'][seed % 2::2] if quick else B['batch'], [], 'batch')
     samples.append(prog_text(json.loads(B['prog4'][len(B['prog4']) // 2])))
     run_programs(chk, tally, B['sim'], [], 'sim')
     samples.append(prog_text(json.loads(B['sim'][0])))
@@ -201,7 +214,7 @@ def main(tier):
                 'oracle invariants; (fill) EVERY set of <= 2 catalogue contours (rectangles of the grid in both orientations, '
                 'rectilinear bow-tie, self-overlapping loop, spike, pinch, comb, 45-degree bow-tie/diamonds/triangle and their '
                 'reversals) x {Positive, EvenOdd}; (prog2/prog4) EVERY program of 2 leaves + 1 / + 2 steps over the small / tiny '
-                'leaf family; (sim) -simulate programs of 3 leaves + 5 steps; (stair) staircase ribbons > 1024 edges. Every step '
+                'leaf family (quick: a seed-rotated part); (batch) EVERY BatchBoolean of 0/1/3 operands over 3 micro-family leaves; (sim) -simulate programs of 3 leaves + 5 steps; (stair) staircase ribbons > 1024 edges. Every step '
                 'object of every program is judged. non-trivial = final value non-empty',
         'samples': samples})
     chk.assumptions += [
